@@ -359,7 +359,7 @@ theorem completeProg_eq (c : Cfg) (h : c.parts ≠ []) :
   | nil => exact absurd hp h
   | cons p r => simp
 
-/-- the program of a complete without a part list or with an empty one (a00e4e8): the refusal -/
+/-- the program of a complete without a part list or with an empty one (0fcb858): the refusal -/
 theorem completeProg_nil (c : Cfg) (h : c.parts = []) : completeProg c = [.listed false] := by
   unfold completeProg
   simp [h]
